@@ -81,6 +81,10 @@ def gen_workload(rng):
       depth = rng.choice([0, 0, 0, 1, 1, 2])
       parts = [rng.choice(PKGS) for _ in range(depth)]
       base = rng.choice(IDENTS)
+      if rng.random() < 0.05:
+        # a very long (legal) identifier: file-name length boundaries of the
+        # files the planner derives from module names (all stay < 255 bytes)
+        base = rng.choice("mnq") + "x" * (rng.choice([100, 126, 133, 134, 135, 143, 150, 200]) - 1)
       is_init = depth > 0 and rng.random() < 0.2
       name = ".".join(parts + ([] if is_init else [base]))
       if kind == "System" and rng.random() < 0.3:
